@@ -849,10 +849,46 @@ func vfC01Gen(rt *rapid.T) *vfC01Case {
 			c.Tamper.Edit = "corrupt-sigs"
 		}
 	}
+	// edits that need a particular shape of name: aim them at one (a sibling of a wildcard; an owner at least two labels
+	// below its apex) instead of waiting for the zone and the question to coincide
+	directedName := ""
+	if c.Tamper != nil && (c.Tamper.Edit == "wildcard-replay" || c.Tamper.Edit == "ent-signer") {
+		var cand [][2]string
+		for _, a := range apexes {
+			z := c.W.Zones[a]
+			if !z.Signed || z.NoDS || z.WrongDS {
+				continue
+			}
+			var owners []string
+			for o := range z.Owners {
+				owners = append(owners, o)
+			}
+			sort.Strings(owners)
+			for _, o := range owners {
+				ls, al := dns.SplitDomainName(o), dns.SplitDomainName(a)
+				if strings.HasPrefix(o, "*") || len(ls) < len(al)+2 || !(z.Owners[o][dns.TypeA] || z.Owners[o][dns.TypeTXT]) {
+					continue
+				}
+				if c.Tamper.Edit == "wildcard-replay" {
+					if _, ok := z.Owners["*."+strings.Join(ls[1:], ".")+"."]; !ok {
+						continue
+					}
+				}
+				cand = append(cand, [2]string{o, a})
+			}
+		}
+		if len(cand) > 0 && rapid.IntRange(0, 3).Draw(rt, "directed") != 0 {
+			k := cand[rapid.IntRange(0, len(cand)-1).Draw(rt, "directedwhich")]
+			directedName, c.Tamper.Zone = k[0], k[1]
+			if c.Tamper.Edit == "ent-signer" {
+				c.Tamper.Kind = "answer"
+			}
+		}
+	}
 	// a validated alias whose target does not exist in an *insecure* zone, and that zone answers the bare way (header
 	// only): the alias's authenticity says nothing about the denial
 	bareAlias := ""
-	if rapid.IntRange(0, 2).Draw(rt, "barealias") == 0 {
+	if directedName == "" && rapid.IntRange(0, 2).Draw(rt, "barealias") == 0 {
 		for _, a := range apexes {
 			z := c.W.Zones[a]
 			var owners []string
@@ -907,6 +943,13 @@ func vfC01Gen(rt *rapid.T) *vfC01Case {
 			st.Name, st.Qtype = prev.Name, prev.Qtype
 		} else {
 			st.Name, st.Qtype = vfworld.GenQuestion(rt, c.W)
+		}
+		if directedName != "" && prev == nil {
+			st.Name, st.CD = directedName, false
+			st.Qtype = dns.TypeA
+			if z := c.W.Zones[c.Tamper.Zone]; z != nil && !z.Owners[directedName][dns.TypeA] {
+				st.Qtype = dns.TypeTXT
+			}
 		}
 		if bareAlias != "" && prev == nil {
 			st.Name, st.Qtype, st.CD, st.EDNS, st.DO = bareAlias, dns.TypeA, false, true, true
